@@ -148,11 +148,13 @@ def feature_text():
     out.append('Rule\tFDupY\t1990\t2045\t-\tApr\t1\t2:00\t1:00\tD')
     out.append('Rule\tFDupY\t1990\t2045\t-\tOct\t1\t2:00\t0\tS')
     out.append('Rule\tFDupY\t2010\tonly\t-\tOct\t20\t2:00\t1:00\tD')       # a second October rule in one year only
+    out.append('Rule\tFDupOld\t1990\tonly\t-\tApr\t1\t2:00\t1:00\tD')        # two rules in one month of a year long before the
+    out.append('Rule\tFDupOld\t1990\tonly\t-\tApr\t20\t2:00\t0\tS')         # generated years, nothing after: both are 'the latest rule before'
     pol('FJan', 'Jan\t1\t0:00\t1:00\tD', 'Jul\t1\t0:00\t0\tS')
     pol('FJanW', 'Jan\tSun>=1\t0:00\t1:00\tD', 'Jul\t1\t0:00\t0\tS')
     pol('FLong', 'Mar\tlastSun\t2:00\t1:00\tDD', 'Oct\tlastSun\t2:00\t0\tS')
     pol('FLong3', 'Mar\tlastSun\t2:00\t1:00\tD', 'Oct\tlastSun\t2:00\t0\tWAT')
-    for z, p in (('Plain', 'FOk'), ('Dec31', 'FDec'), ('Dup', 'FDup'), ('DupYear', 'FDupY'), ('Jan1', 'FJan'), ('JanSun', 'FJanW'), ('Long', 'FLong'), ('Long3', 'FLong3')):
+    for z, p in (('Plain', 'FOk'), ('Dec31', 'FDec'), ('Dup', 'FDup'), ('DupYear', 'FDupY'), ('DupOld', 'FDupOld'), ('Jan1', 'FJan'), ('JanSun', 'FJanW'), ('Long', 'FLong'), ('Long3', 'FLong3')):
         out.append('Zone\tFeat/%s\t-5:00\t%s\tE%%sT' % (z, p))
     out.append('Zone\tFeat/Fixed\t5:30\t-\tIST')
     out.append('Zone\tFeat/TwoEras\t2:00\tFOk\tE%sT\t2005')
